@@ -24,6 +24,8 @@ open Fv.Chan.MpscUB (State SPC RPC TPC SOp ROp Res TRes Waker Label)
 inductive Role where
   | stubNext | head | rdrop | senders | swCnt | awCnt | shard (i : Nat) | shardCur | consumed
   | rclosed | rem (b : Nat) | next (b i : Nat) | notif
+  -- mpmc unbounded
+  | wcnt | rcount | rclosedH (r : Nat) | cell (r : Nat) | cmState | cm
 deriving DecidableEq, Repr
 
 inductive MRole where
@@ -223,6 +225,7 @@ structure FutInfo where
   vals : List Nat := []      -- send futures
   max : Nat := 1
   single : Bool := true
+  live : Bool := true
 deriving Repr
 
 structure St where
@@ -420,19 +423,19 @@ def callOf (st : St) (ws : List String) : Except String (Option Label × St) :=
     | _, _ => .ok (none, st)
   | [name, f] =>
     if name == "poll" || name == "wakes" || name == "dropfut" || (name == "drop" && f.startsWith "f") then
-      match st.futs.find? (fun i => i.name == f) with
+      match st.futs.find? (fun i => i.name == f && i.live) with
       | none => .ok (none, st)
       | some fi =>
         if name == "poll" then
           if fi.recv then .ok (some (.callR .poll), st)
-          else .ok (some (.callS fi.handle (.send fi.vals)), { st with futs := st.futs.filter (fun i => i.name != f) })
+          else .ok (some (.callS fi.handle (.send fi.vals)), { st with futs := st.futs.map (fun i => if i.name == f then { i with live := false } else i) })
         else if name == "wakes" then .ok (none, st)
         else
           if fi.recv then
             -- dropping a resolved future is a harness no-op
-            if st.s.fut.isSome then .ok (some (.callR .dropFut), { st with futs := st.futs.filter (fun i => i.name != f) })
-            else .ok (none, { st with futs := st.futs.filter (fun i => i.name != f) })
-          else .ok (none, { st with futs := st.futs.filter (fun i => i.name != f) })
+            if st.s.fut.isSome then .ok (some (.callR .dropFut), { st with futs := st.futs.map (fun i => if i.name == f then { i with live := false } else i) })
+            else .ok (none, { st with futs := st.futs.map (fun i => if i.name == f then { i with live := false } else i) })
+          else .ok (none, { st with futs := st.futs.map (fun i => if i.name == f then { i with live := false } else i) })
     else
     match parseH f with
     | none => .ok (none, st)
